@@ -34,7 +34,7 @@ ASSUMPTIONS = [
 ]
 PROBES = ["concat_ambiguous_paths_live", "dot_segment_offered", "dot_segment_rejected", "reopen_between_write_and_read",
           "store:memory", "store:local", "store:lru", "store:dbfs", "contain_checked"]
-SEGS = ["a", "b", "ab", "a.b", "a b", "é", "c"]
+SEGS = ["a", "b", "ab", "a.b", "a b", "é", "c", ".a", ".ab", "a."]
 DOTS = [".", ".."]
 STORES = ["memory", "local", "lru", "dbfs"]
 
@@ -64,6 +64,15 @@ def _gen_paths(rng, n, with_dots):
                 if all(o[:min(len(o), len(cand))] != cand[:min(len(o), len(cand))] for o in out) and cand:
                     out.append(cand)
                     break
+    # bias: a partner that differs only by a leading / trailing dot of one segment
+    if out and rng.random() < 0.5:
+        t = rng.choice(out)
+        i = rng.randrange(len(t))
+        if t[i] not in DOTS:
+            s2 = t[i][1:] if t[i].startswith(".") and len(t[i]) > 1 else "." + t[i]
+            cand = t[:i] + (s2,) + t[i + 1:]
+            if cand not in out and all(o[:min(len(o), len(cand))] != cand[:min(len(o), len(cand))] for o in out):
+                out.append(cand)
     return out
 
 
